@@ -243,6 +243,7 @@ class Facts:
         self.dir = ensure_facts(config, repo)
         self.config = config
         self.repo = repo or REPO
+        crates = tuple(c for c in crates if c in EXPECTED_FILES[config])   # `nofork` builds libwild alone: no wild-bin
         self.crates = crates
         cache = os.path.join(self.dir, "index-" + "_".join(crates) + ".pickle")
         if os.path.exists(cache):
